@@ -725,7 +725,7 @@ void vf_run(vf::Ctx& c)
     // E1: random histories of <= 40 ops over two bitsets, every type of every width of this unit (each shard has its own seed)
     for (std::uint32_t ci = 0; ci < configs().size(); ++ci) {
         auto const& cfg   = configs()[ci];
-        int const per_cfg = c.thorough() ? (cfg.width <= 33 ? 100000 : 50000) : (cfg.width <= 33 ? 2000 : 1000);
+        int const per_cfg = c.thorough() ? (cfg.width <= 33 ? 60000 : 40000) : (cfg.width <= 33 ? 2000 : 1000);
         auto gen          = rc::gen::map(vf::gen_history(1, NCODES, 40), [ci](OpsCase k) {
             k.cfg = ci;
             return k;
